@@ -5,6 +5,7 @@ import (
 	"fmt"
 	"net/http"
 	"net/url"
+	"os"
 	"time"
 
 	"go.opentelemetry.io/otel/attribute"
@@ -24,6 +25,8 @@ import (
 	sdktrace "go.opentelemetry.io/otel/sdk/trace"
 	"go.opentelemetry.io/otel/sdk/trace/tracetest"
 	"go.opentelemetry.io/otel/trace"
+	"google.golang.org/grpc"
+	"google.golang.org/grpc/credentials/insecure"
 )
 
 // exporterInfo describes one of the six exporters under test.
@@ -49,6 +52,7 @@ type handle struct {
 	export   func(context.Context) error
 	shutdown func(context.Context) error
 	start    func(context.Context) error // trace exporters only (otlptrace.Exporter.Start)
+	close    func()                      // releases what the harness made for the exporter (its own gRPC connection)
 }
 
 // traceLife constructs a trace exporter along the requested life cycle:
@@ -136,7 +140,15 @@ func records(n int, mark string) []sdklog.Record {
 // handleOpts is everything a case configures on an exporter.
 type handleOpts struct {
 	rc      retryCfg
-	timeout time.Duration // 0 = option not passed
+	timeout time.Duration // WithTimeout(timeout) when timeoutSet
+	// timeoutSet: pass WithTimeout at all
+	timeoutSet bool
+	// env: environment variables set while the exporter is constructed (the
+	// exporters read their configuration at construction only), removed afterwards
+	env map[string]string
+	// ownConn (gRPC exporters): hand the exporter a connection made by the
+	// harness (WithGRPCConn) instead of the endpoint; closed by handle.close
+	ownConn bool
 	gz      bool
 	items   int
 	life    string            // life cycle before the export (see Case.Life)
@@ -149,11 +161,31 @@ type handleOpts struct {
 func newHandle(name, addr string, o handleOpts) (handle, error) {
 	ctx := context.Background()
 	rc, timeout, gz, items := o.rc, o.timeout, o.gz, o.items
+	for k, v := range o.env {
+		prev, had := os.LookupEnv(k)
+		_ = os.Setenv(k, v)
+		defer func(k, prev string, had bool) {
+			if had {
+				_ = os.Setenv(k, prev)
+			} else {
+				_ = os.Unsetenv(k)
+			}
+		}(k, prev, had)
+	}
+	var conn *grpc.ClientConn
+	closeConn := func() {}
+	if o.ownConn {
+		cc, err := grpc.NewClient(addr, grpc.WithTransportCredentials(insecure.NewCredentials()))
+		if err != nil {
+			return handle{}, err
+		}
+		conn, closeConn = cc, func() { _ = cc.Close() }
+	}
 	switch name {
 	case "otlptracehttp":
 		opts := []otlptracehttp.Option{otlptracehttp.WithEndpoint(addr), otlptracehttp.WithInsecure(),
 			otlptracehttp.WithRetry(otlptracehttp.RetryConfig{Enabled: rc.Enabled, InitialInterval: rc.Initial, MaxInterval: rc.MaxInterval, MaxElapsedTime: rc.MaxElapsed})}
-		if timeout > 0 {
+		if o.timeoutSet {
 			opts = append(opts, otlptracehttp.WithTimeout(timeout))
 		}
 		if gz {
@@ -175,7 +207,7 @@ func newHandle(name, addr string, o handleOpts) (handle, error) {
 	case "otlptracegrpc":
 		opts := []otlptracegrpc.Option{otlptracegrpc.WithEndpoint(addr), otlptracegrpc.WithInsecure(),
 			otlptracegrpc.WithRetry(otlptracegrpc.RetryConfig{Enabled: rc.Enabled, InitialInterval: rc.Initial, MaxInterval: rc.MaxInterval, MaxElapsedTime: rc.MaxElapsed})}
-		if timeout > 0 {
+		if o.timeoutSet {
 			opts = append(opts, otlptracegrpc.WithTimeout(timeout))
 		}
 		if gz {
@@ -184,17 +216,21 @@ func newHandle(name, addr string, o handleOpts) (handle, error) {
 		if o.headers != nil {
 			opts = append(opts, otlptracegrpc.WithHeaders(o.headers))
 		}
+		if conn != nil {
+			opts = append(opts, otlptracegrpc.WithGRPCConn(conn))
+		}
 		e, err := traceLife(o.life, func() *otlptrace.Exporter { return otlptracegrpc.NewUnstarted(opts...) },
 			func() (*otlptrace.Exporter, error) { return otlptracegrpc.New(ctx, opts...) })
 		if err != nil {
+			closeConn()
 			return handle{}, err
 		}
 		ss := spans(items, o.mark)
-		return handle{export: func(ctx context.Context) error { return e.ExportSpans(ctx, ss) }, shutdown: e.Shutdown, start: e.Start}, nil
+		return handle{export: func(ctx context.Context) error { return e.ExportSpans(ctx, ss) }, shutdown: e.Shutdown, start: e.Start, close: closeConn}, nil
 	case "otlpmetrichttp":
 		opts := []otlpmetrichttp.Option{otlpmetrichttp.WithEndpoint(addr), otlpmetrichttp.WithInsecure(),
 			otlpmetrichttp.WithRetry(otlpmetrichttp.RetryConfig{Enabled: rc.Enabled, InitialInterval: rc.Initial, MaxInterval: rc.MaxInterval, MaxElapsedTime: rc.MaxElapsed})}
-		if timeout > 0 {
+		if o.timeoutSet {
 			opts = append(opts, otlpmetrichttp.WithTimeout(timeout))
 		}
 		if gz {
@@ -215,7 +251,7 @@ func newHandle(name, addr string, o handleOpts) (handle, error) {
 	case "otlpmetricgrpc":
 		opts := []otlpmetricgrpc.Option{otlpmetricgrpc.WithEndpoint(addr), otlpmetricgrpc.WithInsecure(),
 			otlpmetricgrpc.WithRetry(otlpmetricgrpc.RetryConfig{Enabled: rc.Enabled, InitialInterval: rc.Initial, MaxInterval: rc.MaxInterval, MaxElapsedTime: rc.MaxElapsed})}
-		if timeout > 0 {
+		if o.timeoutSet {
 			opts = append(opts, otlpmetricgrpc.WithTimeout(timeout))
 		}
 		if gz {
@@ -224,16 +260,19 @@ func newHandle(name, addr string, o handleOpts) (handle, error) {
 		if o.headers != nil {
 			opts = append(opts, otlpmetricgrpc.WithHeaders(o.headers))
 		}
+		if conn != nil {
+			opts = append(opts, otlpmetricgrpc.WithGRPCConn(conn))
+		}
 		e, err := otlpmetricgrpc.New(ctx, opts...)
 		if err != nil {
 			return handle{}, err
 		}
 		rm := metrics(items, o.mark)
-		return handle{export: func(ctx context.Context) error { return e.Export(ctx, rm) }, shutdown: e.Shutdown}, nil
+		return handle{export: func(ctx context.Context) error { return e.Export(ctx, rm) }, shutdown: e.Shutdown, close: closeConn}, nil
 	case "otlploghttp":
 		opts := []otlploghttp.Option{otlploghttp.WithEndpoint(addr), otlploghttp.WithInsecure(),
 			otlploghttp.WithRetry(otlploghttp.RetryConfig{Enabled: rc.Enabled, InitialInterval: rc.Initial, MaxInterval: rc.MaxInterval, MaxElapsedTime: rc.MaxElapsed})}
-		if timeout > 0 {
+		if o.timeoutSet {
 			opts = append(opts, otlploghttp.WithTimeout(timeout))
 		}
 		if gz {
@@ -254,7 +293,7 @@ func newHandle(name, addr string, o handleOpts) (handle, error) {
 	case "otlploggrpc":
 		opts := []otlploggrpc.Option{otlploggrpc.WithEndpoint(addr), otlploggrpc.WithInsecure(),
 			otlploggrpc.WithRetry(otlploggrpc.RetryConfig{Enabled: rc.Enabled, InitialInterval: rc.Initial, MaxInterval: rc.MaxInterval, MaxElapsedTime: rc.MaxElapsed})}
-		if timeout > 0 {
+		if o.timeoutSet {
 			opts = append(opts, otlploggrpc.WithTimeout(timeout))
 		}
 		if gz {
@@ -263,12 +302,15 @@ func newHandle(name, addr string, o handleOpts) (handle, error) {
 		if o.headers != nil {
 			opts = append(opts, otlploggrpc.WithHeaders(o.headers))
 		}
+		if conn != nil {
+			opts = append(opts, otlploggrpc.WithGRPCConn(conn))
+		}
 		e, err := otlploggrpc.New(ctx, opts...)
 		if err != nil {
 			return handle{}, err
 		}
 		rs := records(items, o.mark)
-		return handle{export: func(ctx context.Context) error { return e.Export(ctx, rs) }, shutdown: e.Shutdown}, nil
+		return handle{export: func(ctx context.Context) error { return e.Export(ctx, rs) }, shutdown: e.Shutdown, close: closeConn}, nil
 	}
 	return handle{}, fmt.Errorf("unknown exporter %q", name)
 }
